@@ -25,11 +25,13 @@ pub struct Program {
     /// initial files hold 100 000 bytes instead of one (implementations may treat big buffers
     /// differently; what a concurrent reader may see does not depend on the size)
     pub big: bool,
+    /// 45 unrelated files '/bulk/e<i>' exist as well (tables of a few dozen entries)
+    pub many: bool,
 }
 
 fn program_strategy() -> impl Strategy<Value = Program> {
-    (any::<u8>(), any::<u8>(), any::<u8>(), proptest::collection::vec(proptest::collection::vec((any::<u8>(), any::<u8>(), any::<u8>()), 1..=3), 2..=3), 0u8..8)
-        .prop_map(|(pre_dirs, pre_files, pre_mixed, threads, big)| {
+    (any::<u8>(), any::<u8>(), any::<u8>(), proptest::collection::vec(proptest::collection::vec((any::<u8>(), any::<u8>(), any::<u8>()), 1..=3), 2..=3), 0u8..8, 0u8..6)
+        .prop_map(|(pre_dirs, pre_files, pre_mixed, threads, big, many)| {
             let mut init = vec![];
             for (i, d) in DIRS.iter().enumerate() {
                 if pre_dirs & (1 << i) != 0 {
@@ -48,7 +50,7 @@ fn program_strategy() -> impl Strategy<Value = Program> {
                     _ => {}
                 }
             }
-            Program { init, threads: threads.iter().map(|t| t.iter().map(call_of).collect()).collect(), big: big == 0 }
+            Program { init, threads: threads.iter().map(|t| t.iter().map(call_of).collect()).collect(), big: big == 0, many: many == 0 }
         })
 }
 
@@ -88,6 +90,12 @@ fn initial_tree(p: &Program) -> Tree {
         }
         t.m.insert(path.clone(), if *is_dir { Node::Dir } else { Node::File(Arc::new(if p.big { vec![b'x'; 100_000] } else { b"x".to_vec() })) });
     }
+    if p.many {
+        t.m.insert("/bulk".to_string(), Node::Dir);
+        for i in 0..45 {
+            t.m.insert(format!("/bulk/e{}", i), Node::File(Arc::new(b"b".to_vec())));
+        }
+    }
     t
 }
 
@@ -110,21 +118,24 @@ pub fn family_programs() -> Vec<Program> {
         Op::RemoveDir(child),
         Op::RemoveDir("/a".to_string()),
         Op::Append(m.clone(), Arc::new(b"P".to_vec())),
+        Op::RemoveFile("/bulk/e0".to_string()),
     ];
     let mut out = vec![];
     // initial state of the hot path: absent / file / directory / file of 100 000 bytes
-    for init_kind in 0..4 {
+    for init_kind in 0..5 {
         let mut init = vec![("/a".to_string(), true)];
         match init_kind {
             1 | 3 => init.push((m.clone(), false)),
-            2 => init.push((m.clone(), true)),
+            2 | 4 => init.push((m.clone(), true)),
             _ => {}
         }
         let big = init_kind == 3;
+        // the fifth state: a directory, in a filesystem that holds 45 further files
+        let many = init_kind == 4;
         for a in &alphabet {
             for b1 in &alphabet {
                 for b2 in &alphabet {
-                    out.push(Program { init: init.clone(), threads: vec![vec![a.clone()], vec![b1.clone(), b2.clone()]], big });
+                    out.push(Program { init: init.clone(), threads: vec![vec![a.clone()], vec![b1.clone(), b2.clone()]], big, many });
                 }
             }
         }
@@ -363,6 +374,7 @@ fn program_to_json(p: &Program) -> Value {
     json!({
         "init": p.init.iter().map(|(q, d)| json!([q, d])).collect::<Vec<_>>(),
         "big": p.big,
+        "many": p.many,
         "threads": p.threads.iter().map(|t| t.iter().map(crate::props::c18::op_to_json).collect::<Vec<_>>()).collect::<Vec<_>>(),
     })
 }
@@ -371,6 +383,7 @@ fn program_from_json(v: &Value) -> Option<Program> {
     Some(Program {
         init: v.get("init")?.as_array()?.iter().filter_map(|e| Some((e.get(0)?.as_str()?.to_string(), e.get(1)?.as_bool()?))).collect(),
         big: v.get("big").and_then(|x| x.as_bool()).unwrap_or(false),
+        many: v.get("many").and_then(|x| x.as_bool()).unwrap_or(false),
         threads: v.get("threads")?.as_array()?.iter().map(|t| t.as_array().map(|a| a.iter().filter_map(crate::hist::op_from_json).collect()).unwrap_or_default()).collect(),
     })
 }
@@ -387,7 +400,7 @@ pub fn replay(v: &Value) -> CaseResult {
     }
 }
 
-const RULE: &str = "programs of 2..3 threads x 1..3 calls from {create_dir, write session (create_file+write_all+drop), append session, remove_file, remove_dir, exists, metadata, read_dir, read session} over a universe of 4 directory paths, 4 file paths and 2 paths used by both kinds of calls, with overlapping prefixes, optionally pre-populated; each program's schedule tree (decision at every lock acquisition of MemoryFS and every call boundary) is enumerated depth-first with iterative preemption bounding up to the tier's cap (exhaustive when it fits), then random schedules; additionally the systematic family of all 2-thread (1 call || 2 calls) programs over 12 calls around one hot path that changes type (x 4 initial states: absent, file, directory, file of 100 000 bytes = 6912 programs; all in thorough, 2500 sampled in quick); one random program in eight starts from 100 000-byte files; oracle: (per-call results, final tree) of every explored schedule must be among the results of the sequential executions (all program-order-respecting interleavings of whole calls on the reference model, cross-checked against a single-threaded run of the real MemoryFS), final tree well-formed, no panic, every step reaches its next yield point within 10 s; non-trivial = program in which two threads with a mutator each touch a common path or a parent/child pair, explored with >=1 preemption; evaluations = scheduled executions; PLUS truly parallel threads (two listing a 4000-entry directory, one creating and removing entries) while open_file + metadata run 400 (4000) times: the access time must have been refreshed by every call (contention-dependent behaviour is invisible to a cooperative scheduler)";
+const RULE: &str = "programs of 2..3 threads x 1..3 calls from {create_dir, write session (create_file+write_all+drop), append session, remove_file, remove_dir, exists, metadata, read_dir, read session} over a universe of 4 directory paths, 4 file paths and 2 paths used by both kinds of calls, with overlapping prefixes, optionally pre-populated; each program's schedule tree (decision at every lock acquisition of MemoryFS and every call boundary) is enumerated depth-first with iterative preemption bounding up to the tier's cap (exhaustive when it fits), then random schedules; additionally the systematic family of all 2-thread (1 call || 2 calls) programs over 13 calls around one hot path that changes type (x 5 initial states: absent, file, directory, file of 100 000 bytes, directory in a filesystem holding 45 further files = 10985 programs; all in thorough, 2500 sampled in quick); one random program in eight starts from 100 000-byte files, one in six from a filesystem with 45 further files; oracle: (per-call results, final tree) of every explored schedule must be among the results of the sequential executions (all program-order-respecting interleavings of whole calls on the reference model, cross-checked against a single-threaded run of the real MemoryFS), final tree well-formed, no panic, every step reaches its next yield point within 10 s; non-trivial = program in which two threads with a mutator each touch a common path or a parent/child pair, explored with >=1 preemption; evaluations = scheduled executions; PLUS truly parallel threads (three listing a 40000-entry directory, one creating and removing entries) while open_file + metadata run 2000 (20000) times: the access time must have been refreshed by every call (contention-dependent behaviour is invisible to a cooperative scheduler)";
 
 /// Truly parallel threads (no scheduler): while two threads list a big directory and one creates
 /// and removes entries, every `open_file` must leave an access time that is not older than the
@@ -400,21 +413,27 @@ fn contention_stress(rounds: u32) -> Result<u64, Failure> {
     let fail = |m: String| Failure { message: m, replay: json!({"kind": "c16-contention"}) };
     let dir = root.join("d").map_err(|e| fail(e.to_string()))?;
     dir.create_dir().map_err(|e| fail(e.to_string()))?;
-    for i in 0..4000 {
+    for i in 0..40_000 {
         dir.join(format!("e{}", i)).and_then(|p| p.create_file().map(|_| ())).map_err(|e| fail(e.to_string()))?;
     }
     let f = root.join("f").map_err(|e| fail(e.to_string()))?;
     f.create_file().map_err(|e| fail(e.to_string()))?;
     std::thread::sleep(Duration::from_millis(40));
     let stop = AtomicBool::new(false);
+    let passes = std::sync::atomic::AtomicU64::new(0);
     let mut checked = 0u64;
     let res: Result<(), String> = std::thread::scope(|s| {
-        for _ in 0..2 {
+        for _ in 0..3 {
             s.spawn(|| {
                 while !stop.load(Ordering::Relaxed) {
                     let _ = dir.read_dir().map(|it| it.count());
+                    passes.fetch_add(1, Ordering::Relaxed);
                 }
             });
+        }
+        // the calls under test start once the listing threads are really running
+        while passes.load(Ordering::Relaxed) < 3 {
+            std::thread::yield_now();
         }
         s.spawn(|| {
             let mut i = 0u64;
@@ -427,8 +446,9 @@ fn contention_stress(rounds: u32) -> Result<u64, Failure> {
             }
         });
         let mut out = Ok(());
+        let mut stale = 0u32;
         for i in 0..rounds {
-            let t0 = SystemTime::now() - Duration::from_millis(10);
+            let t0 = SystemTime::now();
             let h = f.open_file();
             let md = f.metadata();
             drop(h);
@@ -437,7 +457,11 @@ fn contention_stress(rounds: u32) -> Result<u64, Failure> {
                 Ok(m) => {
                     if let Some(a) = m.accessed {
                         if a < t0 {
-                            out = Err(format!("open_file #{} returned while other threads list a 4000-entry directory and create/remove entries: the file's access time ({:?} before the call started) was not refreshed - no sequential order of the calls explains that", i, t0.duration_since(a).unwrap_or_default()));
+                            stale += 1;
+                        }
+                        // (a single stale observation could be a stepping wall clock)
+                        if a < t0 && stale >= 3 {
+                            out = Err(format!("open_file #{} returned while other threads list a 40000-entry directory and create/remove entries: the file's access time ({:?} before the call started) was not refreshed - no sequential order of the calls explains that", i, t0.duration_since(a).unwrap_or_default()));
                             break;
                         }
                     }
@@ -554,7 +578,7 @@ pub fn run(ctx: &RunCtx) -> i32 {
         stats.label_n("family_size", total as u64);
     }
     if failure.is_none() {
-        match contention_stress(ctx.tier.pick(400, 4000)) {
+        match contention_stress(ctx.tier.pick(2000, 20_000)) {
             Ok(n) => {
                 stats.evaluations += n;
                 stats.label_n("open_file_calls_under_real_contention", n);
